@@ -1,0 +1,5 @@
+//go:build !verif
+
+package process
+
+func verifYield(int, any) {}
